@@ -17,7 +17,7 @@ func runC04(tier string, seed uint64, rep *Report) {
 	ops := []types.MalType{
 		nil, 1, "s", Kw("k"), S("x"), L(), L(S("x")), V(S("x")), V(S("&"), S("x")), V(S("&")), V(1),
 		types.HashMap{Val: map[string]types.MalType{}}, L(S("catch")), L(S("catch"), S("e")), L(S("catch"), S("e"), 1), L(S("catch"), 5, 6),
-		L(S("finally")), L(S("finally"), 1), L(S("unquote")), L(S("splice-unquote")), L(L(S("splice-unquote"))), L(S("fn")), L(S("fn"), V(1), 1),
+		L(S("finally")), L(S("finally"), 1), V(S("catch"), S("e"), 2), V(S("finally"), 2), L(S("unquote")), L(S("splice-unquote")), L(L(S("splice-unquote"))), L(S("fn")), L(S("fn"), V(1), 1),
 	}
 	heads := []string{"def", "let", "quote", "quasiquoteexpand", "quasiquote", "defmacro", "macroexpand", "try", "do", "if", "fn"}
 	maxLen := 3
@@ -135,10 +135,12 @@ func c04Compositions(r *Rng, rep *Report, tier string) {
 	}
 	failing = append(failing,
 		// a macro whose expansion is the empty list; parameter lists ending in a dangling &, called with enough arguments
-		"(m-empty)", "(m-splice)", "(-> ())", "((fn [a &] a) 1)", "((fn [a b &] a) 1 2)", "(m-dangling 1)")
+		"(m-empty)", "(m-splice)", "(-> ())", "((fn [a &] a) 1)", "((fn [a b &] a) 1 2)", "(m-dangling 1)",
+		// functions and macros that carry metadata, called every way; try clauses written as vectors
+		"(m-meta false (throw 7) 8)", "(f-meta)", "(apply f-meta [])", "(try 1 [catch e 2])", "(try (throw 1) [catch e 2] (finally 3))", "(try 1 [finally 2])")
 	fine := []string{"1", "(trace! :ok)", "(+ 1 2)", "(count log)", "[1 (trace! 2)]",
 		// special forms with fewer operands than usual, wherever they end up (often in tail position after longer forms)
-		"(if true)", "(if nil)", "(if (trace! 1))", "(quote)", "(do)", "(let [])", "(fn)", "(try)", "{:a (trace! 1)}", "(quasiquote)"}
+		"(m-meta true 7 8)", "(f-meta 1)", "(apply f-meta [1])", "(map f-meta [1 2])", "(swap! (atom 1) f-meta)", "((with-meta f-meta {:again 1}) 2)", "(if true)", "(if nil)", "(if (trace! 1))", "(quote)", "(do)", "(let [])", "(fn)", "(try)", "{:a (trace! 1)}", "(quasiquote)"}
 	pick := func(xs []string) string { return xs[r.Intn(len(xs))] }
 	var ctxs []func(inner string) string
 	ctxs = []func(string) string{
@@ -170,6 +172,7 @@ func c04Compositions(r *Rng, rep *Report, tier string) {
 		func(x string) string { return "(try (throw 1) (catch e " + x + ") (finally (trace! (count log))))" },
 	}
 	prelude := "(def log (atom [])) (def one-arg (fn [a] a)) (defmacro mm-map (fn [f xs] `(map ~f ~xs))) (defmacro mm-apply (fn [f xs] `(apply ~f ~xs)))" +
+		" (defmacro m-meta (with-meta (fn [c a b] (list 'if c a b)) {:doc \"d\"})) (def f-meta (with-meta (fn [a] a) {:k 1}))" +
 		" (defmacro m-empty (fn [& xs] xs)) (defmacro m-splice (fn [& form] `(~@form))) (defmacro m-dangling (fn [x &] x))"
 	n := 1200
 	if tier == "thorough" {
